@@ -4,6 +4,7 @@ import GstVerif.Db.Driver
 import GstVerif.LinAlg.Driver
 import GstVerif.Krig.Driver
 import GstVerif.Rng.Driver
+import GstVerif.Neigh.Driver
 /-
   gstmodel: line-protocol driver.  One request per input line:
       <model> <op> <args…> => <implementation's answer…>
@@ -25,6 +26,7 @@ def dispatch (line : String) : String :=
   | "m" :: args => LinAlg.handle args impl
   | "k" :: args => Krig.handle args impl
   | "r" :: args => Rng.handle args impl
+  | "n" :: args => Neigh.handle args impl
   | _ => "bad-op"
 
 partial def loop (h : IO.FS.Stream) (out : IO.FS.Stream) : IO Unit := do
